@@ -15,7 +15,7 @@ import math
 from vf import specfun as S
 from vf import specfun_j as J
 from vf.specfun import args, real_in, complex_in, near, integer, half_integer, choice
-from vf.specfun_j import (Cell, cell, real_p, around, near_c, near_p, near_any, cplx, polar, uniform, ints, const,
+from vf.specfun_j import (capped, Cell, cell, real_p, around, near_c, near_p, near_any, cplx, polar, uniform, ints, const,
                           args_p, dy, fl)
 from vf.catalog import R, C, I, raw_rand, canon
 
@@ -143,7 +143,7 @@ def _close_pair(r, b, p):
 
 def _near_pm1(r, b, p):
     """x = +-(1 - 2^-k)"""
-    k = r.randint(4, 26)
+    k = r.randint(3, max(3, min(26, p - 2)))
     return [R(dy(r.choice([-1, 1]) * ((1 << k) - 1), k))]
 
 TABLE = {
@@ -273,7 +273,7 @@ TABLE = {
         Cell('moderate', args(lambda r, b: R(fl(r.uniform(1.6, 1000), max(8, min(b, 53)))))),
         Cell('0..1', args(lambda r, b: R(fl(r.uniform(0.001, 0.98), max(8, min(b, 53)))))),
         Cell('tiny', args(real_in(-80, -10, 0))),
-        cell('near-1', near_p(1, lambda p: (3, p + 10))),
+        cell('near-1', near_p(1, capped(lambda p: (3, p + 10)))),
         cell('near-zero-1.4513', near_c(Z['li_zero'], 256, 4, 26)),
         Cell('large', args(real_in(10, 70, 0))),
         cell('huge', real_p(lambda p: (p, 4 * p + 100), 0)),
@@ -359,7 +359,7 @@ TABLE = {
         Cell('int-z', args(integer(1, 40), real_in(-4, 6, 0)), fn=_lower, cost=2),
         Cell('large-z', args(real_in(4, 9, 0), real_in(-2, 9, 0)), fn=_lower, cost=3, precs=HEAVY_PRECS),
         Cell('neg-nonint-z', args(lambda r, b: R(fl(-r.uniform(0.05, 8) , 30)), real_in(-4, 4, 0)), fn=_lower, cost=2),
-        cell('z-near-nonpos-int', near_any([0, -1, -2, -5], pk=lambda p: (4, p)), real_in(-4, 4, 0), fn=_lower, cost=2),
+        cell('z-near-nonpos-int', near_any([0, -1, -2, -5], pk=capped(lambda p: (4, p))), real_in(-4, 4, 0), fn=_lower, cost=2),
         Cell('negative-b', args(param, real_in(-4, 1, 1)), fn=_lower, cost=3, tmax=6),
         Cell('complex', args(complex_in(-2, 3), complex_in(-3, 4)), fn=_lower, cost=3, precs=HEAVY_PRECS),
         Cell('regularized', args(param, real_in(-6, 6, 0)), fn=_lower_reg, cost=2),
@@ -395,14 +395,14 @@ TABLE = {
     'betainc': [
         cell('complete-is-beta', param, param, const(I(0)), const(I(1)), fn=_bi),
         cell('0..x', param, param, const(I(0)), uniform(0.001, 0.9), fn=_bi, cost=2),
-        cell('0..x-near-1', param, param, const(I(0)), near_p(1, lambda p: (3, 30)), fn=_bi, cost=3, precs=HEAVY_PRECS),
+        cell('0..x-near-1', param, param, const(I(0)), near_p(1, capped(lambda p: (3, 30))), fn=_bi, cost=3, precs=HEAVY_PRECS),
         cell('0..x-small', param, param, const(I(0)), real_in(-60, -8, 0), fn=_bi, cost=2),
         cell('0..x>1', param, param, const(I(0)), uniform(1.1, 20.0), fn=_bi, cost=3, precs=HEAVY_PRECS),
         cell('x1..x2', param, param, uniform(0.01, 0.45), uniform(0.5, 0.95), fn=_bi, cost=2),
         cell('x1..1', param, param, uniform(0.01, 0.95), const(I(1)), fn=_bi, cost=3, precs=HEAVY_PRECS),
         cell('int-params', integer(1, 30), integer(1, 30), const(I(0)), uniform(0.01, 0.95), fn=_bi, cost=2),
         cell('large-params', real_in(4, 9, 0), real_in(-2, 9, 0), const(I(0)), uniform(0.01, 0.95), fn=_bi, cost=3, precs=HEAVY_PRECS),
-        cell('a-near-nonpos-int-x1>0', near_any([0, -1, -2], pk=lambda p: (5, p + 10)), param, uniform(0.01, 0.45), uniform(0.5, 0.95),
+        cell('a-near-nonpos-int-x1>0', near_any([0, -1, -2], pk=capped(lambda p: (5, p + 10))), param, uniform(0.01, 0.45), uniform(0.5, 0.95),
              fn=_bi, cost=3, precs=HEAVY_PRECS),
         cell('negative-x', param, integer(1, 6), const(I(0)), uniform(-20.0, -0.01), fn=_bi, cost=3, precs=HEAVY_PRECS),
         cell('complex-params', lambda r, b, p: C(raw_rand(r, b, -2, 3, 0), raw_rand(r, b, -2, 3)), lambda r, b, p: C(raw_rand(r, b, -2, 3, 0), raw_rand(r, b, -2, 3)),
